@@ -128,6 +128,7 @@ func TestVerifC47(t *testing.T) {
 	}
 	c.Sample(map[string]any{"encode": "v=1 type=1 st=0 idx=0x01020304 ctr=0x0102030405060708", "wire": fmt.Sprintf("%x", Encode(make([]byte, 16), 1, 1, 0, 0x01020304, 0x0102030405060708))})
 
+	shortInBig := 0
 	// parsing: every length 0..20; cap==len; poisoned trailing bytes must not influence the result; all first-two-byte values
 	for l := 0; l <= 20; l++ {
 		for b0 := 0; b0 < 256; b0++ {
@@ -151,6 +152,21 @@ func TestVerifC47(t *testing.T) {
 					}
 					if _, err2 := NewHeader(base); err2 == nil {
 						c.Violation(fmt.Sprintf("NewHeader accepts %d-byte input", l), map[string]any{"len": l})
+					}
+					// the same short input as the front of a larger receive buffer that still holds an earlier, complete
+					// header (len < 16 <= cap): the length of the input decides, not the room behind it
+					if b1 == 0 {
+						big := Encode(make([]byte, Len, 64), 1, Message, 0, 0x01020304, 0x0102030405060708)
+						copy(big, base)
+						short := big[:l]
+						var hs H
+						if err := hs.Parse(short); err == nil {
+							c.Violation(fmt.Sprintf("Parse accepts %d-byte input", l)+" (front of a larger buffer)", map[string]any{"len": l, "cap": cap(short), "got": hs.String()})
+						}
+						if _, err := NewHeader(short); err == nil {
+							c.Violation(fmt.Sprintf("NewHeader accepts %d-byte input", l)+" (front of a larger buffer)", map[string]any{"len": l, "cap": cap(short)})
+						}
+						shortInBig++
 					}
 					continue
 				}
@@ -178,6 +194,8 @@ func TestVerifC47(t *testing.T) {
 		}
 	}
 	c.Set("evaluations", evals)
+	c.Set("short_inputs_at_the_front_of_a_larger_buffer", shortInBig)
+	c.Require(shortInBig >= 16*256, "short inputs inside a larger buffer not exercised: %d", shortInBig)
 	c.Set("distinct_nontrivial", nontrivial)
 	c.Set("rule", "every enumerated case is a distinct (fields|bytes) tuple; non-trivial = some field non-zero (encode) or input >= 16 bytes (parse); the 65536-entry type/subtype table is complete")
 	c.Set("valid_type_subtype_pairs", nValid)
